@@ -1,6 +1,7 @@
 package main
 
 import (
+	"sort"
 	"go/token"
 	"go/types"
 	"strings"
@@ -19,8 +20,8 @@ func init() {
 				Run: ruleCondLockState},
 			{ID: "C16.lockset", Floor: 4, Clause: "c.ch is read with c.m held (R or W) and written only with c.m held for writing; Broadcast closes the old channel before installing the new one",
 				Run: func(c *Ctx, r *R) {
-					chF, muF := condFieldNames(c)
-					guardedAccesses(c, r, "ch", "xsync", "ContextCond", chF, muF)
+					owner, chF, muF := condOwner(c)
+					guardedAccesses(c, r, "ch", "xsync", owner, chF, muF)
 					ruleBroadcastOrder(c, r)
 				}},
 			{ID: "C16.capacity-siblings", Floor: 3, Clause: "every creation site of ContextCond.ch uses the same constant capacity >= 1; Signal is a non-blocking send",
@@ -41,71 +42,217 @@ func condWait(c *Ctx, r *R) *ssa.Function {
 	return fn
 }
 
+// condOwner: the struct type (ContextCond itself, or a struct nested in it by value) that holds the wake-up channel and the
+// mutex guarding it, with the (pinned) names of those two fields.
+func condOwner(c *Ctx) (owner, ch, mu string) {
+	tn := c.lookupType("xsync", "ContextCond")
+	if tn == nil {
+		return "", "", ""
+	}
+	var visit func(t types.Type, name string, d int) bool
+	visit = func(t types.Type, name string, d int) bool {
+		st, ok := t.Underlying().(*types.Struct)
+		if !ok || d > 2 {
+			return false
+		}
+		var chs, mus []string
+		for i := 0; i < st.NumFields(); i++ {
+			ft := st.Field(i).Type()
+			if chanElemIsEmptyStruct(ft) {
+				chs = append(chs, canonField(t, st.Field(i).Name()))
+			}
+			if isNamedType(ft, "sync", "RWMutex") || isNamedType(ft, "sync", "Mutex") {
+				mus = append(mus, canonField(t, st.Field(i).Name()))
+			}
+		}
+		if len(chs) == 1 && len(mus) == 1 {
+			owner, ch, mu = name, chs[0], mus[0]
+			return true
+		}
+		for i := 0; i < st.NumFields(); i++ {
+			if nt, ok := st.Field(i).Type().(*types.Named); ok && nt.Obj().Pkg() == tn.Pkg() {
+				if visit(nt, canonType(nt), d+1) {
+					return true
+				}
+			}
+		}
+		return false
+	}
+	visit(tn.Type(), "ContextCond", 0)
+	return
+}
+
+func isCondChanFieldAddr(c *Ctx, v ssa.Value) bool {
+	owner, chF, _ := condOwner(c)
+	fa, ok := v.(*ssa.FieldAddr)
+	return ok && owner != "" && fieldName(fa.X.Type(), fa.Field) == chF && isNamedType(fa.X.Type(), "xsync", owner)
+}
+
+// lockerCall: in is an interface call of method name on the cond's Locker field (c.L.Unlock() / c.L.Lock()).
+func lockerCall(in ssa.Instruction, name string) bool {
+	call, ok := in.(*ssa.Call)
+	if !ok || !call.Call.IsInvoke() || call.Call.Method.Name() != name {
+		return false
+	}
+	pv := valueProv(call.Call.Value, provEnv{})
+	return len(pv.fields) >= 1 && isNamedType(call.Call.Value.Type(), "sync", "Locker")
+}
+
+const (
+	cSNAP = 1 << iota // the cond's channel was read with its mutex held, before c.L was released
+	cUNL              // c.L released
+	cREL              // c.L re-acquired
+	cWOKE             // a receive from the wake-up channel completed
+	cCTX              // the ctx.Done() arm was taken
+)
+
+// condWaitStates runs the Wait typestate over Wait and the in-package helpers it is built from and returns, for every
+// instruction visited (helpers included), the states that can hold before it.
+func condWaitStates(c *Ctx, fn *ssa.Function) map[ssa.Instruction]StateSet {
+	_, _, muF := condOwner(c)
+	held := map[*ssa.Function]map[ssa.Instruction]lockset{}
+	lockedAt := func(in ssa.Instruction) bool {
+		f := in.Parent()
+		if held[f] == nil {
+			held[f] = locksIn(f, lockset{})
+		}
+		for lk := range held[f][in] {
+			if strings.HasSuffix(lk, "."+muF) {
+				return true
+			}
+		}
+		return false
+	}
+	pkg := fn.Pkg
+	pf := &PF{N: 32, DeepVisit: true, InScope: func(f *ssa.Function) bool { return rootFn(f).Pkg == pkg && f.Blocks != nil && f != fn }}
+	pf.Instr = func(f *ssa.Function, in ssa.Instruction, q int) (StateSet, bool) {
+		switch x := in.(type) {
+		case *ssa.UnOp:
+			if x.Op == token.MUL && isCondChanFieldAddr(c, x.X) && q&cUNL == 0 && lockedAt(x) {
+				return ss(q | cSNAP), true
+			}
+			if x.Op == token.ARROW && chanElemIsEmptyStruct(x.X.Type()) && q&cUNL != 0 {
+				if _, isCtx := ctxDoneOf(x.X); !isCtx {
+					return ss(q | cWOKE), true
+				}
+			}
+		case *ssa.Call:
+			if lockerCall(in, "Unlock") {
+				if q&cSNAP == 0 {
+					return ss(q), true // released before the snapshot: the later read does not count
+				}
+				return ss(q | cUNL), true
+			}
+			if lockerCall(in, "Lock") {
+				return ss(q | cREL), true
+			}
+			// a function literal handed to a helper that runs it under the mutex (c.with(func(cur) { ch = cur })): the read
+			// happens inside the helper; nothing to do here
+		}
+		return 0, false
+	}
+	pf.Edge = func(f *ssa.Function, g guard, q int) (StateSet, bool) {
+		cf, ok := g.asCmp()
+		if !ok || cf.op != token.EQL {
+			return 0, false
+		}
+		ex, ok := cf.x.(*ssa.Extract)
+		if !ok || ex.Index != 0 {
+			return 0, false
+		}
+		sel, ok := ex.Tuple.(*ssa.Select)
+		k, isK := cf.y.(*ssa.Const)
+		if !ok || !isK || k.Value == nil {
+			return 0, false
+		}
+		idx := int(k.Int64())
+		if idx < 0 || idx >= len(sel.States) || sel.States[idx].Dir != types.RecvOnly {
+			return 0, false
+		}
+		if _, isCtx := ctxDoneOf(sel.States[idx].Chan); isCtx {
+			return ss(q | cCTX), true
+		}
+		if chanElemIsEmptyStruct(sel.States[idx].Chan.Type()) && q&cUNL != 0 {
+			return ss(q | cWOKE), true
+		}
+		return 0, false
+	}
+	before := map[ssa.Instruction]StateSet{}
+	pf.Visit = func(f *ssa.Function, in ssa.Instruction, s StateSet) { before[in] |= s }
+	pf.Exits(fn, ss(0))
+	return before
+}
+
+// ctxDoneOf: v is (a copy of) the result of Done() on a context.
+func ctxDoneOf(v ssa.Value) (ssa.Value, bool) {
+	for _, lf := range valueLeaves(v, nil, 0) {
+		call, ok := lf.v.(*ssa.Call)
+		if !ok || !call.Call.IsInvoke() || call.Call.Method.Name() != "Done" {
+			return nil, false
+		}
+	}
+	return v, true
+}
+
 func ruleCondSnapshot(c *Ctx, r *R) {
 	fn := condWait(c, r)
 	if fn == nil {
 		return
 	}
-	var unlock ssa.Instruction
-	instrs(fn, func(b *ssa.BasicBlock, i int, in ssa.Instruction) {
-		if call, ok := in.(*ssa.Call); ok && call.Call.IsInvoke() && call.Call.Method.Name() == "Unlock" && strings.HasSuffix(path(call.Call.Value), ".L") {
-			unlock = call
-		}
-	})
-	if unlock == nil {
-		r.violated("xsync.ContextCond.Wait|unlock", fn.Pos(), "Wait never releases c.L")
-		return
-	}
-	held := locksIn(fn, lockset{})
-	_, muF := condFieldNames(c)
+	// (a) identity: every channel Wait blocks on (other than ctx.Done()) is a value of the cond's channel field
 	n := 0
-	for _, op := range chanOpsOf(fn) {
-		for _, a := range op.arms {
-			if a.send || a.kind == "ctx-done" {
-				continue
-			}
-			n++
-			isSnap := false
-			// the channel value is computed (load or helper call) before the unlock ...
-			src := resolveVal(a.ch)
-			if si, ok := src.(ssa.Instruction); ok {
-				before := si.Block().Dominates(unlock.Block()) && (si.Block() != unlock.Block() || idxIn(si) < idxIn(unlock))
-				// ... and it is the cond's channel field read with the mutex held (here, or inside the helper)
-				if loads, ok := isCondChanLoad(c, src); ok && before {
-					isSnap = true
-					for _, ld := range loads {
-						h := held
-						if ld.Parent() != fn {
-							h = locksIn(ld.Parent(), lockset{})
-						}
-						locked := false
-						for lk := range h[ld] {
-							if strings.HasSuffix(lk, "."+muF) {
-								locked = true
-							}
-						}
-						if !locked {
-							isSnap = false
-						}
+	seenFn := map[*ssa.Function]bool{}
+	for _, di := range deepInstrs(fn, 3) {
+		f := di.in.Parent()
+		if seenFn[f] {
+			continue
+		}
+		seenFn[f] = true
+		for _, op := range chanOpsOf(f) {
+			for _, a := range op.arms {
+				if a.send || a.kind == "ctx-done" {
+					continue
+				}
+				if _, isCtx := ctxDoneOf(a.ch); isCtx {
+					continue
+				}
+				n++
+				good := true
+				why := ""
+				for _, lf := range valueLeaves(a.ch, di.calls, 0) {
+					ld, ok := lf.v.(*ssa.UnOp)
+					if !ok || ld.Op != token.MUL || !isCondChanFieldAddr(c, ld.X) {
+						good = false
+						why = "it can be " + path(lf.v)
 					}
 				}
+				r.ok(good, "xsync.ContextCond.Wait|recv-from-snapshot#"+itoa(n), posOf(op.in), "the channel waited on must be the value of the cond's channel read under its mutex BEFORE c.L.Unlock(): a Broadcast between the unlock and a later read would replace the channel and the wake-up would be missed ("+why+")")
 			}
-			r.ok(isSnap, "xsync.ContextCond.Wait|recv-from-snapshot#"+itoa(n), posOf(op.in), "the channel waited on must be the value of the cond's channel read under its mutex BEFORE c.L.Unlock(): a Broadcast between the unlock and a later read would replace the channel and the wake-up would be missed")
 		}
 	}
 	if n == 0 {
 		r.violated("xsync.ContextCond.Wait|recv-from-snapshot", fn.Pos(), "Wait does not wait on the cond's channel")
 	}
-	// the unlock is unconditional and precedes the select
-	sel := false
-	for _, op := range chanOpsOf(fn) {
-		if op.kind == "select" && op.blocking {
-			if unlock.Block().Dominates(op.in.Block()) && (unlock.Block() != op.in.Block() || idxIn(unlock) < idxIn(op.in)) {
-				sel = true
-			}
+	// (b) order: at every return that reports a wake-up, the channel had been read under the mutex, then c.L released, and only
+	// then the receive completed (the typestate sets WOKE only after UNL, and UNL only after SNAP)
+	before := condWaitStates(c, fn)
+	okOrder, any := true, false
+	for in, st := range before {
+		ret, ok := in.(*ssa.Return)
+		if !ok || len(ret.Results) != 1 || !isNilConst(ret.Results[0]) {
+			continue
 		}
+		if _, isErr := ret.Results[0].Type().Underlying().(*types.Interface); !isErr {
+			continue
+		}
+		any = true
+		st.each(func(q int) {
+			if q&(cSNAP|cUNL|cWOKE) != cSNAP|cUNL|cWOKE {
+				okOrder = false
+			}
+		})
 	}
-	r.ok(sel && unlock.Block() == fn.Blocks[0], "xsync.ContextCond.Wait|unlock-before-wait", unlock.Pos(), "c.L must be released unconditionally before blocking")
+	r.ok(any && okOrder, "xsync.ContextCond.Wait|unlock-before-wait", fn.Pos(), "on every path that reports a wake-up Wait must have read the channel under the mutex, then released c.L, and only then received: reading after the release misses a Broadcast in between; not releasing deadlocks the signaller")
 }
 
 func ruleCondLockState(c *Ctx, r *R) {
@@ -113,55 +260,71 @@ func ruleCondLockState(c *Ctx, r *R) {
 	if fn == nil {
 		return
 	}
-	var ctxBody, wakeBody *ssa.BasicBlock
-	for _, op := range chanOpsOf(fn) {
-		if op.kind != "select" {
+	before := condWaitStates(c, fn)
+	type retState struct {
+		ret *ssa.Return
+		st  StateSet
+	}
+	var rets []retState
+	for in, st := range before {
+		ret, ok := in.(*ssa.Return)
+		if !ok || len(ret.Results) != 1 {
 			continue
 		}
-		for _, a := range op.arms {
-			if a.kind == "ctx-done" {
-				ctxBody = a.body
-			} else if !a.send {
-				wakeBody = a.body
+		if !types.Identical(ret.Results[0].Type(), fn.Signature.Results().At(0).Type()) {
+			continue
+		}
+		// a return that merely hands on a helper's result is decided at the helper's own returns
+		if call, ok := ret.Results[0].(*ssa.Call); ok {
+			if cal := staticCallee(&call.Call); cal != nil && cal.Blocks != nil && rootFn(cal).Pkg == fn.Pkg {
+				continue
 			}
 		}
+		rets = append(rets, retState{ret, st})
 	}
-	if ctxBody == nil || wakeBody == nil {
-		r.violated("xsync.ContextCond.Wait|arms", fn.Pos(), "Wait must select on ctx.Done() and the wake-up channel")
-		return
-	}
-	isRelock := func(in ssa.Instruction) bool {
-		call, ok := in.(*ssa.Call)
-		return ok && call.Call.IsInvoke() && call.Call.Method.Name() == "Lock" && strings.HasSuffix(path(call.Call.Value), ".L")
-	}
-	// typestate: 0 = c.L not re-acquired since the unlock, 1 = re-acquired
-	pf := &PF{N: 2}
-	pf.Instr = func(f *ssa.Function, in ssa.Instruction, q int) (StateSet, bool) {
-		if isRelock(in) {
-			return ss(1), true
-		}
-		return 0, false
-	}
-	n := 0
-	for _, e := range pf.Exits(fn, ss(0)) {
-		n++
-		res := e.Ret.Results[0]
-		key := "xsync.ContextCond.Wait|return#" + itoa(n)
-		inCtx := ctxBody.Dominates(e.Ret.Block())
-		inWake := wakeBody.Dominates(e.Ret.Block()) || !inCtx
+	sort.Slice(rets, func(i, j int) bool { return rets[i].ret.Pos() < rets[j].ret.Pos() })
+	sawNil, sawErr := false, false
+	for n, rs := range rets {
+		res := rs.ret.Results[0]
+		key := "xsync.ContextCond.Wait|return#" + itoa(n+1)
 		if isNilConst(res) {
-			r.ok(e.States == ss(1) && !inCtx, key, retPos(e.Ret), "a nil return must hold c.L again on every path (and must not come from the ctx.Done() arm)")
+			sawNil = true
+			good := true
+			rs.st.each(func(q int) {
+				if q&cREL == 0 || q&cWOKE == 0 || q&cCTX != 0 {
+					good = false
+				}
+			})
+			r.ok(good, key, retPos(rs.ret), "a nil return must hold c.L again on every path and must follow a completed wake-up (never the ctx.Done() arm)")
 			continue
 		}
-		// error return
+		sawErr = true
 		isCtxErr := false
 		if call, ok := res.(*ssa.Call); ok && call.Call.IsInvoke() && call.Call.Method.Name() == "Err" {
 			isCtxErr = true
 		}
-		r.ok(inCtx && !inWake || (inCtx && isCtxErr), key, retPos(e.Ret), "an error may be returned only from the ctx.Done() arm: returning an error after the wake-up channel was received from swallows a Signal that another waiter needs")
-		if inCtx {
-			r.ok(isCtxErr && e.States == ss(0), key+"|ctx-err-unlocked", retPos(e.Ret), "the ctx.Done() arm must return ctx.Err() without re-acquiring c.L")
-		}
+		inCtx, woke, relocked, unlocked := true, false, false, true
+		rs.st.each(func(q int) {
+			if q&cCTX == 0 {
+				inCtx = false
+			}
+			if q&cWOKE != 0 {
+				woke = true
+			}
+			if q&cREL != 0 {
+				relocked = true
+			}
+			if q&cUNL == 0 {
+				unlocked = false
+			}
+		})
+		r.ok(inCtx && !woke, key, retPos(rs.ret), "an error may be returned only from the ctx.Done() arm: returning an error after the wake-up channel was received from swallows a Signal that another waiter needs")
+		r.ok(isCtxErr && !relocked && unlocked, key+"|ctx-err-unlocked", retPos(rs.ret), "the ctx.Done() arm must return ctx.Err() with c.L released and not re-acquired")
+	}
+	if !sawNil || !sawErr {
+		r.violated("xsync.ContextCond.Wait|arms", fn.Pos(), "Wait must select on ctx.Done() and the wake-up channel (a nil return and a ctx.Err() return)")
+	} else {
+		r.discharged("xsync.ContextCond.Wait|arms", fn.Pos(), "Wait has a wake-up return and a context return")
 	}
 }
 
@@ -171,18 +334,25 @@ func ruleBroadcastOrder(c *Ctx, r *R) {
 		r.undecided("xsync.ContextCond.Broadcast|missing", token.NoPos, "anchor not found")
 		return
 	}
-	chF, muF := condFieldNames(c)
+	_, chF, muF := condOwner(c)
 	var cl, st ssa.Instruction
-	instrs(fn, func(b *ssa.BasicBlock, i int, in ssa.Instruction) {
-		switch x := in.(type) {
+	var site ssa.Instruction
+	for _, d := range deepInstrs(fn, 2) {
+		switch x := d.in.(type) {
 		case *ssa.Call:
 			if bi, ok := x.Call.Value.(*ssa.Builtin); ok && bi.Name() == "close" {
-				if _, ok := isCondChanLoad(c, x.Call.Args[0]); ok {
-					cl = x
+				good := true
+				for _, lf := range valueLeaves(x.Call.Args[0], d.calls, 0) {
+					if ld, ok := lf.v.(*ssa.UnOp); !ok || !isCondChanFieldAddr(c, ld.X) {
+						good = false
+					}
+				}
+				if good {
+					cl, site = x, d.site
 				}
 			}
 		case *ssa.Store:
-			if _, f, ok := storedField(x.Addr); ok && f == chF {
+			if isCondChanFieldAddr(c, x.Addr) {
 				for _, v := range throughHelper(x.Val) {
 					if _, isMk := v.(*ssa.MakeChan); isMk {
 						st = x
@@ -190,25 +360,24 @@ func ruleBroadcastOrder(c *Ctx, r *R) {
 				}
 			}
 		}
-	})
-	held := locksIn(fn, lockset{})
-	w := func(in ssa.Instruction) bool {
-		for lk, m := range held[in] {
-			if strings.HasSuffix(lk, "."+muF) && m == 'W' {
-				return true
-			}
-		}
-		return false
 	}
-	good := cl != nil && st != nil && cl.Block() == st.Block() && idxIn(cl) < idxIn(st) && w(cl) && w(st) && cl.Block() == fn.Blocks[0]
-	// the channel that is closed must have been read under the lock too
+	_ = chF
+	good := cl != nil && st != nil && cl.Parent() == st.Parent() && cl.Block() == st.Block() && idxIn(cl) < idxIn(st)
 	if good {
-		if loads, ok := isCondChanLoad(c, cl.(*ssa.Call).Call.Args[0]); ok {
-			for _, ld := range loads {
-				if ld.Parent() == fn && !w(ld) {
-					good = false
+		f := cl.Parent()
+		held := locksIn(f, lockset{})
+		w := func(in ssa.Instruction) bool {
+			for lk, m := range held[in] {
+				if strings.HasSuffix(lk, "."+muF) && m == 'W' {
+					return true
 				}
 			}
+			return false
+		}
+		good = w(cl) && w(st) && cl.Block() == f.Blocks[0] && site.Block() == fn.Blocks[0]
+		// the channel that is closed must have been read under the lock too
+		if ld, ok := resolveVal(cl.(*ssa.Call).Call.Args[0]).(*ssa.UnOp); ok && ld.Parent() == f && !w(ld) {
+			good = false
 		}
 	}
 	r.ok(good, "xsync.ContextCond.Broadcast|close-then-replace", fn.Pos(), "Broadcast must close the current channel (waking every waiter that snapshotted it) and then install a fresh one, both while holding the cond's mutex for writing")
@@ -227,9 +396,7 @@ func condChanSites(c *Ctx) []*ssa.MakeChan {
 			if !ok {
 				return
 			}
-			chF, _ := condFieldNames(c)
-			fa, ok := st.Addr.(*ssa.FieldAddr)
-			if !ok || fieldName(fa.X.Type(), fa.Field) != chF || !isNamedType(fa.X.Type(), "xsync", "ContextCond") {
+			if !isCondChanFieldAddr(c, st.Addr) {
 				return
 			}
 			for _, v := range throughHelper(st.Val) {
@@ -266,26 +433,10 @@ func ruleCondCapacity(c *Ctx, r *R) {
 	}
 	nb := true
 	sends := 0
-	seenFn := map[*ssa.Function]bool{}
-	for _, di := range deepInstrs(sig, 2) {
-		f := di.in.Parent()
-		if seenFn[f] {
-			continue
-		}
-		seenFn[f] = true
-		var chain []*ssa.Call = di.calls
-		for _, op := range chanOpsOf(f) {
-			for _, a := range op.arms {
-				if !a.send {
-					continue
-				}
-				if _, ok := isCondChanLoad(c, argOf(a.ch, chain)); ok {
-					sends++
-					if op.blocking {
-						nb = false
-					}
-				}
-			}
+	for _, cs := range condSends(c, sig) {
+		sends++
+		if cs.blocking {
+			nb = false
 		}
 	}
 	r.ok(nb && sends == 1, "xsync.ContextCond.Signal|non-blocking", sig.Pos(), "Signal must be a single non-blocking send on c.ch (it may be called with c.L held and with no waiter present)")
@@ -300,22 +451,9 @@ func ruleSignalCapacity(c *Ctx, r *R) {
 	// Is the wake-up token carried by a channel shared by all waiters, with bounded constant capacity, filled by a
 	// non-blocking (lossy) send?
 	lossy := false
-	seenFn := map[*ssa.Function]bool{}
-	for _, di := range deepInstrs(sig, 2) {
-		f := di.in.Parent()
-		if seenFn[f] {
-			continue
-		}
-		seenFn[f] = true
-		for _, op := range chanOpsOf(f) {
-			for _, a := range op.arms {
-				if !a.send || op.blocking {
-					continue
-				}
-				if _, ok := isCondChanLoad(c, argOf(a.ch, di.calls)); ok {
-					lossy = true
-				}
-			}
+	for _, cs := range condSends(c, sig) {
+		if !cs.blocking {
+			lossy = true
 		}
 	}
 	var capv int64 = -1
@@ -329,6 +467,58 @@ func ruleSignalCapacity(c *Ctx, r *R) {
 		return
 	}
 	r.discharged("xsync.ContextCond.Signal|wake-up-capacity", sig.Pos(), "Signal is not a lossy send on a shared bounded channel")
+}
+
+type condSend struct {
+	op       chanOp
+	blocking bool
+}
+
+// condSends: the sends on the cond's channel performed by fn, by the in-package helpers it calls and by the function literals
+// it hands to them.
+func condSends(c *Ctx, fn *ssa.Function) []condSend {
+	var out []condSend
+	type frame struct {
+		f     *ssa.Function
+		chain []*ssa.Call
+	}
+	var frames []frame
+	seenFn := map[*ssa.Function]bool{}
+	for _, di := range deepInstrs(fn, 2) {
+		f := di.in.Parent()
+		if !seenFn[f] {
+			seenFn[f] = true
+			frames = append(frames, frame{f, di.calls})
+		}
+	}
+	for _, fr := range append([]frame{}, frames...) {
+		for _, a := range fr.f.AnonFuncs {
+			if !seenFn[a] {
+				seenFn[a] = true
+				frames = append(frames, frame{a, fr.chain})
+			}
+		}
+	}
+	for _, fr := range frames {
+		for _, op := range chanOpsOf(fr.f) {
+			for _, a := range op.arms {
+				if !a.send {
+					continue
+				}
+				isCond := true
+				ls := valueLeaves(a.ch, fr.chain, 0)
+				for _, lf := range ls {
+					if ld, ok := lf.v.(*ssa.UnOp); !ok || ld.Op != token.MUL || !isCondChanFieldAddr(c, ld.X) {
+						isCond = false
+					}
+				}
+				if isCond && len(ls) > 0 {
+					out = append(out, condSend{op, op.blocking})
+				}
+			}
+		}
+	}
+	return out
 }
 
 // condFieldNames: ContextCond's wake-up channel field (chan struct{}) and its guarding mutex field, whatever they are called.
